@@ -11,7 +11,7 @@ import (
 
 func init() {
 	register(&core.Rule{ID: "A4", Min: 30,
-		Doc: "Width rows: in the jitdec handlers _asm_OP_{i8,i16,i32,u8,u16,u32,f32} and _asm_OP_map_key_{same}, every width-bearing token (int16Type, _I_int16/_T_int16, math.MinInt16/MaxInt16, MaxUint16 ...) names the width of the opcode; a narrow parse is followed by the range helper before the value is stored or used as a key; the store is of that width (MOVB/MOVW/MOVL/MOVSS); the value opcode and the map-key opcode of one width apply the same range helper with the same bounds. Encoder: OP_i8..OP_u64 read the operand with the load of their width in the x86 handler (MOVBQSX, MOVWQSX, MOVLQSX, MOVQ / ...ZX) and the VM arm dereferences the Go type of that width.",
+		Doc: "Width rows: in the jitdec handlers _asm_OP_{i8,i16,i32,u8,u16,u32,f32} and _asm_OP_map_key_{same}, every width-bearing token (int16Type, _I_int16/_T_int16, math.MinInt16/MaxInt16, MaxUint16 ...) names the width of the opcode; a narrow parse is followed by the range helper before the value is stored or used as a key; the store is of that width (MOVB/MOVW/MOVL/MOVSS); the value opcode and the map-key opcode of one width apply the same range helper with the same bounds. Encoder: OP_i8..OP_u64 read the operand with the load of their width in the x86 handler (MOVBQSX, MOVWQSX, MOVLQSX, MOVQ / ...ZX) and the VM arm dereferences the Go type of that width; OP_is_zero_1/2/4/8 test exactly N bytes in both executors (CMPB/CMPW/CMPL/CMPQ and *(*uintN)).",
 		Run: runA4})
 }
 
@@ -216,6 +216,48 @@ func runA4(c *core.Ctx) {
 				return true
 			})
 			c.Check(load == r.load, "x86.(Assembler)._asm_"+r.op+"/operand-width", fd.Pos(), "loads with "+r.load, "the x86 handler of "+r.op+" loads the operand with "+load+", expected "+r.load+": the value is read with the wrong width or signedness")
+		}
+	}
+
+	// omitempty tests of N-byte scalars: OP_is_zero_N compares N bytes in both executors, and the
+	// compiler picks N from the kind (case reflect.Int16: OP_is_zero_2 ...)
+	zrows := []struct {
+		n     int
+		cmp   string
+		deref string
+	}{{1, "CMPB", "uint8"}, {2, "CMPW", "uint16"}, {4, "CMPL", "uint32"}, {8, "CMPQ", "uint64"}}
+	for _, zr := range zrows {
+		op := "OP_is_zero_" + itoa(zr.n)
+		if cc := arms[op]; cc != nil {
+			found := ""
+			ast.Inspect(cc, func(n ast.Node) bool {
+				if st, ok := n.(*ast.StarExpr); ok {
+					if call, ok := ast.Unparen(st.X).(*ast.CallExpr); ok && len(call.Args) == 1 {
+						if pt, ok := ast.Unparen(call.Fun).(*ast.StarExpr); ok && found == "" {
+							found = exprStr(pt.X)
+						}
+					}
+				}
+				return true
+			})
+			c.Check(found == zr.deref, "vm.Execute/"+op+"/operand-width", cc.Pos(), "tests *(*"+zr.deref+")(p)", "the VM arm of "+op+" tests the operand as "+found+", expected "+zr.deref+": part of the value is ignored (or neighbouring bytes are included) when deciding omitempty")
+		} else {
+			c.Undecided("vm.Execute/"+op, token.NoPos, "arm not found")
+		}
+		if x86 != nil {
+			fd := core.FuncDecl(x86, "Assembler", "_asm_"+op)
+			if fd == nil {
+				c.Undecided("x86.(Assembler)._asm_"+op, token.NoPos, "not found")
+				continue
+			}
+			cmp := ""
+			ast.Inspect(fd.Body, func(n ast.Node) bool {
+				if bl, ok := n.(*ast.BasicLit); ok && strings.HasPrefix(bl.Value, "\"CMP") && cmp == "" {
+					cmp = strings.Trim(bl.Value, "\"")
+				}
+				return true
+			})
+			c.Check(cmp == zr.cmp, "x86.(Assembler)._asm_"+op+"/operand-width", fd.Pos(), "compares with "+zr.cmp, "the x86 handler of "+op+" compares with "+cmp+", expected "+zr.cmp+": only part of the "+itoa(zr.n)+"-byte value is tested, so a non-zero value whose low bytes are zero is omitted by the JIT but not by the VM")
 		}
 	}
 }
